@@ -65,7 +65,7 @@ theorem execKill_si (props : JVal) : Pres SI (execKill props) := by
   intro s h
   unfold execKill
   simp only [bind]
-  have hq0 := quiet_getWatcherCmd ((props.get? "name").getD .null) s
+  have hq0 := squiet_getWatcherCmd ((props.get? "name").getD .null) s
   have h0 := getWatcherCmd_s siLeafS ((props.get? "name").getD .null) s h
   generalize getWatcherCmd ((props.get? "name").getD .null) s = r0 at hq0 h0 ⊢
   obtain ⟨r, s0⟩ := r0
@@ -73,7 +73,7 @@ theorem execKill_si (props : JVal) : Pres SI (execKill props) := by
   | error e => exact h0
   | ok u =>
     simp only [pure]
-    have hq1 := quiet_activeProcs u s0
+    have hq1 := squiet_activeProcs u s0
     have h1 := activeProcs_s siLeafS u s0 h0
     have hact : ∀ q ∈ (activeProcs u s0).1, HasObj (activeProcs u s0).2 q := fun q hq =>
       hq1.ext.obj q (listed_hasObj h0.pid (activeProcs_subset u s0 q hq))
